@@ -301,13 +301,6 @@ class Model:
                 self._resync_all(obs)
                 return d
             # accepted: must decode to int() values; continue as accepted
-        if obs.kind == "err" and obs.cls == "InvalidMessageError" and verdict == "accept":
-            d.append(("decode", "rejected-wellformed", repr(line)))
-            if obs.writes:
-                d.append(("writes.other", "write-on-invalid-line", repr(obs.writes)))
-            self._check_registry(obs, d, "after-invalid-line")
-            return d
-
         n, c, cmd, ack, t, p = fields
         exp_err = None  # (cls, attrs) or ("lib", None) or None
         exp_writes: list[tuple] = []  # reaction writes (n,c,cmd,t,payload)
@@ -411,6 +404,13 @@ class Model:
                 exp_err = ("MissingNodeError", {"node_id": n})
             elif unsupported:
                 exp_err = ("UnsupportedMessageError", {})
+
+        # ---------------- well-formed line rejected as invalid (C02) ----------------
+        # (a handler may legitimately report an absurd payload - loose steps - as an invalid message)
+        if obs.kind == "err" and obs.cls == "InvalidMessageError" and verdict == "accept" and not loose:
+            d.append(("decode", "rejected-wellformed", repr(line)))
+            self._resync_all(obs)
+            return d
 
         # ---------------- loose steps ----------------
         if loose:
